@@ -2605,3 +2605,179 @@ RULE = RULE + ("; third batch (scipy_sparse): sptensor.spmatrix on 2-way sptenso
                "scipy.sparse coo factor matrices (all / one / some modes, empty coo matrices, dense / sparse core, copy / no copy) "
                "through full / double / to_tensor, reconstruct (all, index vectors, scalars, mixing matrices), ttm (+ transpose), "
                "isequal")
+
+
+# ---------------------------------------------------------------------------------------------
+# Fourth batch (added after the second mutation run, mutant M1537): what the composite holders REPORT.
+#   holder_reports  Kruskal, Tucker and sum tensors - sums with exactly ONE, two and three parts, every part class in
+#              every position - on shapes of order 1..4 with singleton modes: ndims must be the order of the array the
+#              object denotes (= len(shape)), shape its shape, a sum must keep its parts (count, classes, each part's own
+#              shape / ndims), and full() / to_tensor() / double() must give the sum of the parts' arrays (reference:
+#              defining formulas; model: `c01_chain`, theorem C01_double_sumtensor / C01_double_holder).  The earlier
+#              families built one-part sums too but asked the composite classes for `shape` only.
+#              A sum is also accepted as DATA by an algorithm that asks for ndims / shape / norm / mttkrp: one sweep of
+#              cp_als (property C09) on the sum from a fixed start must be accepted and give the factors of the same
+#              sweep on the dense array the sum denotes (cp_als belongs to C09; asserted here against the dense run).
+# Appended as a wrapper around families() so that nothing above had to be edited.
+# ---------------------------------------------------------------------------------------------
+class HolderReports(Family):
+    """ndims / shape / parts / full / to_tensor / double of Kruskal, Tucker and sum tensors (sums of 1, 2, 3 parts)"""
+    name = "holder_reports"
+    theorems = ("C01_double_ktensor", "C01_double_ttensor", "C01_double_sumtensor", "C01_double_holder")
+    PART_KINDS = ("dense", "sparse", "kruskal", "tucker")
+
+    def gen(self, rng, tier):
+        out = []
+        shapes = [[1], [3], [1, 1], [2, 3], [1, 4], [3, 1], [2, 3, 4], [3, 1, 2], [1, 1, 2], [2, 1, 3, 2]]
+        shapes += [gen.shape(rng, 1, 4, 4, distinct=rng.random() < 0.5) for _ in range(3 if tier == "quick" else 40)]
+        for s in shapes:
+            for kind in ("kruskal", "tucker"):
+                out.append({"k": "reports", "H": rand_holder(rng, kind, s), "copy": True})
+            # sums: ONE part of every class; two / three parts
+            for pk in self.PART_KINDS:
+                out.append({"k": "reports", "H": {"kind": "sum", "parts": [rand_holder(rng, pk, s)]}, "copy": rng.random() < 0.7})
+            for P in (2, 3):
+                for _ in range(1 if tier == "quick" else 3):
+                    kinds = [rng.choice(self.PART_KINDS) for _ in range(P)]
+                    out.append({"k": "reports", "H": {"kind": "sum", "parts": [rand_holder(rng, k_, s) for k_ in kinds]},
+                                "copy": rng.random() < 0.7})
+        # a sum as the data of one cp_als sweep
+        cshapes = [[2, 3], [3, 1], [2, 3, 2], [1, 3, 2]] + ([] if tier == "quick" else [[3, 2, 2, 2], [4, 3], [2, 2, 3]])
+        for s in cshapes:
+            for P in (1, 1, 2, 3):
+                for R in (1,):  # rank one: every system of the sweep is a scalar (a rank-2 sweep on rank-1 data is singular)
+                    kinds = [rng.choice(self.PART_KINDS) for _ in range(P)]
+                    init = self._well_conditioned_start(rng, s, R)
+                    out.append({"k": "cp_als", "H": {"kind": "sum", "parts": [rand_holder(rng, k_, s) for k_ in kinds]},
+                                "R": len(init[0][0]), "init": init})
+        return out
+
+    @staticmethod
+    def _well_conditioned_start(rng, s, R):
+        """positive integer start factors whose Gram products (the systems one ALS sweep solves) are far from
+        singular, so that the sweep on the sum and on the dense array agree to rounding"""
+        for _ in range(200):
+            init = [gen.matrix(rng, m, R, 1, 3, 0.0) for m in s]
+            grams = [np.array(F_, dtype=float).reshape(len(F_), R) for F_ in init]
+            grams = [G.T @ G for G in grams]
+            ok = True
+            for n in range(len(s)):
+                V = np.ones((R, R))
+                for k_, G in enumerate(grams):
+                    if k_ != n:
+                        V = V * G
+                ok = ok and np.linalg.cond(V) < 1e3
+            if ok:
+                return init
+        return [[[1] * R for _ in range(m)] for m in s] if R == 1 else [gen.matrix(rng, m, 1, 1, 3, 0.0) for m in s]
+
+    def shrink(self, case):
+        parts = case["H"].get("parts") or []
+        if len(parts) > 1:
+            for k in range(len(parts)):
+                yield {**case, "H": {"kind": "sum", "parts": parts[:k] + parts[k + 1:]}}
+
+    @staticmethod
+    def _build(c):
+        H = c["H"]
+        if H["kind"] == "sum":
+            return ttb.sumtensor([holder_build(p) for p in H["parts"]], copy=c.get("copy", True))
+        return holder_build(H)
+
+    def _impl(self, c):
+        def f():
+            X = self._build(c)
+            if c["k"] == "cp_als":
+                init = ttb.ktensor([np.array(F_, dtype=float).reshape(len(F_), c["R"]) for F_ in c["init"]])
+                D = ttb.tensor(np.array(holder_ref(c["H"])["data"], dtype=float).reshape(tuple(holder_ref(c["H"])["shape"]), order="F"))
+                try:
+                    Md, _, _ = ttb.cp_als(D, c["R"], init=init.copy(), maxiters=1, printitn=0)
+                except Exception as e:  # noqa: BLE001  (a singular start: no sweep to compare with)
+                    return {"skipped": f"{type(e).__name__}: {e}"}
+                M, _, _ = ttb.cp_als(X, c["R"], init=init.copy(), maxiters=1, printitn=0)
+                return {"shape": [int(v) for v in M.shape], "R": int(M.ncomponents),
+                        "full": np.asarray(M.full().data, dtype=float), "full_dense_run": np.asarray(Md.full().data, dtype=float)}
+            r = {"ndims": call(lambda: int(X.ndims)), "shape": call(lambda: [int(v) for v in X.shape])}
+            for m_ in ("full", "to_tensor"):
+                if hasattr(X, m_):
+                    r[m_] = call(lambda m_=m_: read_dense(getattr(X, m_)()))
+            r["double"] = call(lambda: ndarray_j(X.double()))
+            if c["H"]["kind"] == "sum":
+                r["parts"] = call(lambda: [{"kind": _kind_of(p), "shape": [int(v) for v in p.shape], "ndims": int(p.ndims)}
+                                           for p in X.parts])
+            return r
+        with _quiet():
+            return call(f)
+
+    def evaluate(self, cases):
+        impls = [self._impl(c) for c in cases]
+        idx = [k for k, c in enumerate(cases) if c["k"] == "reports"]
+        replies = drive([{"op": "c01_chain", "H": cases[k]["H"], "steps": [{"c": "full"}]} for k in idx])
+        models = dict(zip(idx, replies))
+        out = []
+        for k, (c, impl) in enumerate(zip(cases, impls)):
+            H = c["H"]
+            ref = holder_ref(H)
+            N = len(ref["shape"])
+            nparts = len(H["parts"]) if H["kind"] == "sum" else 0
+            tags = [c["k"], H["kind"], f"N{N}", "singleton-mode" if 1 in ref["shape"] else "no-singleton"]
+            if H["kind"] == "sum":
+                tags += [f"parts{nparts}", "parts:" + "+".join(sorted({p["kind"] for p in H["parts"]})),
+                         "copy" if c.get("copy", True) else "nocopy"]
+            nt = gen.numel(ref["shape"]) > 1 and any(v != 0 for v in ref["data"])
+            what = f"{H['kind']} tensor" + (f" with {nparts} part(s)" if nparts else "")
+            if "ok" not in impl:
+                out.append(Verdict("violation", f"{c['k']} on a {what} raised: {impl.get('exc')} {impl.get('msg')}", impl, None, ref,
+                                   tags, nt))
+                continue
+            r = impl["ok"]
+            bad = None
+            if c["k"] == "cp_als" and "skipped" in r:
+                out.append(Verdict("ok", "", r, None, ref, tags + ["skipped"], False))
+                continue
+            if c["k"] == "cp_als":
+                A, B = r.pop("full"), r.pop("full_dense_run")
+                if r["shape"] != ref["shape"] or r["R"] != c["R"]:
+                    bad = f"cp_als on a {what} returned a model of another shape / rank"
+                elif not np.all(np.isfinite(B)):
+                    out.append(Verdict("ok", "", r, None, ref, tags + ["skipped"], False))   # the dense sweep itself broke down
+                    continue
+                elif A.shape != B.shape or not np.allclose(A, B, rtol=1e-6, atol=1e-6 * max(1.0, float(np.max(np.abs(B))))):
+                    bad = f"one cp_als sweep on a {what} differs from the same sweep on the dense array it denotes"
+                out.append(Verdict("violation" if bad else "ok", bad or "", r, None, ref, tags, nt))
+                continue
+            m = models[k]
+            md = m["trace"][1]["ok"]["double"]["ok"] if m.get("valid") and all("ok" in t for t in m["trace"]) else None
+            for key in ("ndims", "shape", "full", "to_tensor", "double", "parts"):
+                if key in r and "ok" not in r[key]:
+                    bad = f"{key} of a {what} raised: {r[key].get('exc')} {r[key].get('msg')}"
+                    break
+            if bad is None:
+                if r["ndims"]["ok"] != N:
+                    bad = f"a {what} of shape {ref['shape']} reports ndims {r['ndims']['ok']}"
+                elif r["shape"]["ok"] != ref["shape"]:
+                    bad = f"a {what} reports shape {r['shape']['ok']}, its array has shape {ref['shape']}"
+                elif "parts" in r and r["parts"]["ok"] != [{"kind": p["kind"], "shape": ref["shape"], "ndims": N} for p in H["parts"]]:
+                    bad = f"a {what} does not hold the parts it was built from"
+                else:
+                    for key in ("full", "to_tensor", "double"):
+                        if key in r and not deep_eq(r[key]["ok"], ref):
+                            bad = f"{key}() of a {what} is not the array the object denotes"
+                            break
+                if bad is None and (md is None or not deep_eq(r["double"]["ok"], md)):
+                    out.append(Verdict("corr", f"double() of a {what} differs from the proved model", r, m, ref, tags, nt))
+                    continue
+            out.append(Verdict("violation" if bad else "ok", bad or "", r, m, ref, tags, nt))
+        return out
+
+
+_families_before_holder_reports = families
+
+
+def families():  # noqa: F811
+    return _families_before_holder_reports() + [HolderReports()]
+
+
+RULE = RULE + ("; fourth batch (holder_reports): ndims / shape / parts / full / to_tensor / double of Kruskal, Tucker and sum tensors, "
+               "sums with exactly one part of every class and with two / three parts, orders 1..4 with singleton modes, copy / no copy; "
+               "one cp_als sweep on such sums against the sweep on the dense array")
